@@ -14,6 +14,7 @@ func init() {
 	register("C18", func(c *core.Ctx, tier string) {
 		c18PacketCreate(c)
 		c18FlushSkeleton(c)
+		c18NoLateCallbacks(c)
 		c20Snapshot(c, "C18.2b")
 		sliceFifoShapes(c, "C18.2c")
 		c01AtomicTake(c)
@@ -128,6 +129,63 @@ func c18FlushSkeleton(c *core.Ctx) {
 		return !g.Reach(g.After(l), func(s core.State) bool { return s.B == l.B && s.I == l.I }, nil, nil)
 	}
 	c.Check(R, sockFlush+"/once-each", u.Pos(), noLoop(fs.Loc) && noLoop(ds.Loc) && noLoop(send.Loc), "no cycle contains the events or the Send")
+}
+
+// C18.8 — callbacks of a closed session are dropped, not run late. Two sites
+// cooperate: (a) flush takes the pending callbacks (packetsFn.AllAndClear)
+// only after its flush events, so a listener that closes the session — which
+// clears both queues — cannot be followed by a Push of callbacks taken before
+// the close; (b) the transport's drain listener (onDrain) is detached by the
+// cleanup closure, so a drain of the torn-down transport cannot pop what (a)
+// might have left. Either half alone keeps the behaviour (a stale group that
+// nothing pops, or a stale listener that finds empty queues): the rule is
+// violated only when both are gone.
+func c18NoLateCallbacks(c *core.Ctx) {
+	const R = "C18.8"
+	c.Rule(R, "no late send callbacks (two-site, disjunctive): in flush the callbacks pushed to sentCallbackFn are taken by packetsFn.AllAndClear() after both flush events (no application listener runs between taking and queueing them), OR setTransport's cleanup closure removes the (drain, onDrain) listener from the transport — with neither, a session closed by a flush listener queues callbacks after OnClose cleared the queues and the torn-down transport's drain runs them after the close event")
+	fl := c.Fn(R, sockFlush)
+	st := c.Fn(R, sockSetTr)
+	if fl == nil || st == nil {
+		return
+	}
+	g := fl.Graph()
+	var take *core.Call
+	for _, cl := range fieldCalls(fl, "socket.packetsFn") {
+		if cl.Name == "AllAndClear" {
+			take = cl
+		}
+	}
+	var lastFlush *Ev
+	for _, e := range filterEv(events(c, fl), "emit", "", "flush") {
+		if lastFlush == nil || g.Dominates(lastFlush.Loc, e.Loc) {
+			lastFlush = e
+		}
+	}
+	halfA := take != nil && lastFlush != nil && g.Dominates(lastFlush.Loc, take.Loc)
+	halfB := false
+	var cleanup *core.Unit
+	for _, cl := range st.Calls() {
+		if cl.Name == "Push" && cl.Recv != nil && fieldOf(st.Info(), cl.Recv) == "socket.cleanupFn" {
+			cleanup = closureArg(st, cl, 0)
+		}
+	}
+	if cleanup != nil {
+		c.Touch(cleanup)
+		regs := regSites(c, st, "on", "once")
+		rems := regSites(c, cleanup, "remove")
+		for _, r := range regs {
+			if r.ev.Event != "drain" {
+				continue
+			}
+			for _, m := range rems {
+				if m.ev.Event == "drain" && m.listener != nil && m.listener == r.listener && m.recvObj == r.recvObj {
+					halfB = true
+				}
+			}
+		}
+	}
+	c.Check(R, sockFlush+"/callbacks-taken-after-flush-events ∨ "+sockSetTr+"/drain-listener-detached", fl.Pos(), halfA || halfB,
+		keyf("callbacks taken after the flush events: %v; drain listener removed by the transport cleanup: %v — with both false a send callback can run after the close event", halfA, halfB))
 }
 
 func c18QueueAlignment(c *core.Ctx) {
